@@ -18,6 +18,7 @@ def main(argv=None):
     ap.add_argument("--replay", default=None)
     a = ap.parse_args(argv)
     sys.setrecursionlimit(10000)
+    sys.set_int_max_str_digits(0)
     mod = importlib.import_module(f"props.{a.prop}")
     if a.replay:
         rp = json.load(open(a.replay))
